@@ -314,19 +314,22 @@ type typeGuesser struct {
 }
 
 func (g *typeGuesser) Guess() (SchemaType, error) {
-	m := map[SchemaType]func() bool{
-		SchemaTypeString:  g.isString,
-		SchemaTypeInteger: g.isInteger,
-		SchemaTypeFloat:   g.isFloat,
-		SchemaTypeBoolean: g.isBoolean,
-		SchemaTypeObject:  g.isObject,
-		SchemaTypeArray:   g.isArray,
-		SchemaTypeNull:    g.isNull,
+	m := []struct {
+		t  SchemaType
+		fn func() bool
+	}{
+		{SchemaTypeString, g.isString},
+		{SchemaTypeBoolean, g.isBoolean},
+		{SchemaTypeNull, g.isNull},
+		{SchemaTypeInteger, g.isInteger},
+		{SchemaTypeFloat, g.isFloat},
+		{SchemaTypeObject, g.isObject},
+		{SchemaTypeArray, g.isArray},
 	}
 
-	for t, fn := range m {
-		if fn() {
-			return t, nil
+	for _, x := range m {
+		if x.fn() {
+			return x.t, nil
 		}
 	}
 	return SchemaTypeUndefined, errs.ErrUnableToDetermineTheTypeOfJsonValue.F()
